@@ -10,7 +10,8 @@
    ops (one per line):
      run <mft|cdwf> <all|final> <nsys> <start> <dt> <N> <a0> | c0 c1 c2 c3 c4 | w_0 … w_{L-1} | table…
          -> "ok|<fields>|<calls>"  with  fields = QI …,  calls = t:idx:QI …   or  "raises"
-     ham <start> <dt> <step> <a> <d>   -> "t1 f1 t2 f2"
+     ham <start> <dt> <step> <a> <d>   -> "t1 f1 t2 f2 g1 l1 g2 l2"  (Hamiltonian time/field, then the
+                                          rate / Lindblad-operator times of the two half steps)
 -/
 import OQuPyVerif.Model.ProtoQI
 import OQuPyVerif.Model.MeanField
@@ -63,7 +64,8 @@ def step (line : String) : String :=
   | [["ham", s, dt, k, a, d]] =>
     match parseRat? s, parseRat? dt, parseInt? k, parseQI? a, parseQI? d with
     | some s, some dt, some k, some a, some d =>
-      " ".intercalate ((hamArgs QI.ofRat s dt k a d).map (fun p => s!"{showRat p.1} {showQI p.2}"))
+      " ".intercalate ((hamArgs QI.ofRat s dt k a d).map (fun p => s!"{showRat p.1} {showQI p.2}")
+        ++ (dissArgs s dt k).map (fun p => s!"{showRat p.1} {showRat p.2}"))
     | _, _, _, _, _ => "bad-op"
   | _ => "bad-op"
 
